@@ -212,6 +212,10 @@ def run_schedule(case, ctx, workdir):
         tid = tid_of.get(threading.get_ident())
         if tid is not None and str(dst).endswith(".json"):
             sched.yield_(tid, "replace:" + os.path.basename(str(dst)))
+            r = real_replace(src, dst, *a, **kw)
+            # the new name is visible now, whatever the writer still holds in its buffers
+            sched.yield_(tid, "replaced:" + os.path.basename(str(dst)))
+            return r
         return real_replace(src, dst, *a, **kw)
     os.replace = replace_hook
     old_env = os.environ.get("HOME")
